@@ -11,7 +11,8 @@ Definition st_ok (isw : Z) (st : stream) : Prop :=
   (s_state st = 1 \/ s_state st = 2 \/ s_state st = 3) /\
   (s_state st = 1 -> s_body st = true /\ s_inflow st + s_buf st = isw) /\
   0 <= s_buf st /\ s_inflow st + s_buf st <= isw /\
-  (s_body st = false -> s_buf st = 0).
+  (s_body st = false -> s_buf st = 0) /\
+  s_id st <> 0.
 
 (* connection invariant *)
 Definition Good (c : conn) : Prop :=
@@ -95,7 +96,7 @@ Proof.
   intros HG Hfind. unfold close_stream. destruct (s_state st =? 3) eqn:E3; [discriminate|].
   intros H. inversion H; subst; clear H. simpl.
   split; [|repeat split; reflexivity].
-  pose proof (Good_st _ _ _ HG Hfind) as [Hs [H1 [Hb [Hle Hnb]]]].
+  pose proof (Good_st _ _ _ HG Hfind) as [Hs [H1 [Hb [Hle [Hnb Hid0]]]]].
   assert (H0 : 0 <= c_inflow c) by (destruct HG as [_ [H0 _]]; exact H0).
   apply (good_set c st); [exact HG | exact Hfind | | exact H0 | | ]; simpl.
   - unfold st_ok; simpl.
@@ -145,6 +146,13 @@ Proof.
   induction 1 as [|x r Hx _ IH]; simpl; [lia|]. destruct Hx as [_ [_ [Hb _]]]. lia.
 Qed.
 
+Lemma buf_le_sum isw l st : Forall (st_ok isw) l -> In st l -> s_buf st <= sumbuf l.
+Proof.
+  induction 1 as [|x r Hx Hr IH]; simpl; [tauto|].
+  pose proof (sumbuf_nonneg _ _ Hr). destruct Hx as [_ [_ [Hb _]]].
+  intros [->|Hin]; [lia|]. specialize (IH Hin). lia.
+Qed.
+
 Lemma Good_inflow_le c : Good c -> 0 <= c_inflow c <= init_window.
 Proof.
   intros [HF [H0 [Hl _]]]. pose proof (sumbuf_nonneg _ _ HF). lia.
@@ -170,13 +178,13 @@ Lemma reset_after_upd c st st1 f code pre mx cur d b c' evs :
   Good c ->
   find_stream (s_id st1) (c_streams c) = Some st ->
   (s_state st1 = 1 \/ s_state st1 = 2) -> 0 <= s_buf st1 -> s_inflow st1 + s_buf st1 <= c_isw c ->
-  (s_body st1 = false -> s_buf st1 = 0) ->
+  (s_body st1 = false -> s_buf st1 = 0) -> s_id st1 <> 0 ->
   0 <= f -> f + s_buf st1 <= c_inflow c + s_buf st ->
   (c_p3 c = false -> f + s_buf st1 = c_inflow c + s_buf st) ->
   do_reset (mkC mx (upd_stream st1 (c_streams c)) cur (c_adv c) f (c_isw c) d b (c_p3 c)) (s_id st1) code pre = (c', evs) ->
   Good c' /\ c_bug c' = b /\ c_inflow c' = f /\ c_isw c' = c_isw c /\ c_dead c' = d /\ evs = pre ++ [(2, s_id st1, code)].
 Proof.
-  intros HG Hfind Hs Hb1 Hle1 Hnb1 Hf Hfle Hfeq.
+  intros HG Hfind Hs Hb1 Hle1 Hnb1 Hid1 Hf Hfle Hfeq.
   unfold do_reset. simpl c_streams.
   assert (Hl : find_live (s_id st1) (upd_stream st1 (c_streams c)) = Some st1).
   { unfold find_live. rewrite (find_upd _ _ _ _ Hfind eq_refl).
@@ -234,7 +242,7 @@ Lemma data_open_post c st dlen L es c' evs :
   (0 < L -> s_inflow st < L -> (negb (s_decl st =? -1) && (s_decl st <? s_bytes st + dlen)) = false -> evs = [(2, s_id st, 3)]).
 Proof.
   intros HG Hb Hfind Hst Hd HdL Hid.
-  pose proof (Good_st _ _ _ HG Hfind) as [_ [H1 [Hbuf [Hle Hnb]]]].
+  pose proof (Good_st _ _ _ HG Hfind) as [_ [H1 [Hbuf [Hle [Hnb _]]]]].
   destruct (H1 Hst) as [Hbody Heq].
   pose proof (Good_inflow_le _ HG) as Hi.
   assert (Hisw : 0 < c_isw c <= 1000000) by (destruct HG as [_ [_ [_ [_ X]]]]; exact X).
@@ -314,4 +322,485 @@ Proof.
           exact (Good_st _ _ _ HG Hfind). }
         split; [exact Hb|]. split; [reflexivity|]. split; [reflexivity|].
         split; [intros; unfold wu_of; simpl; lia|split; intros; lia].
+Qed.
+
+(* ---------- one serve-loop step ---------- *)
+(* octets a client frame takes out of the connection window as the client sees it *)
+Definition debit (o : op) : Z :=
+  match o with OData id dlen pad _ => if id =? 0 then 0 else frame_len dlen pad | _ => 0 end.
+(* the client respects the windows it was given (as the server keeps them) *)
+Definition within (c : conn) (o : op) : Prop :=
+  match o with
+  | OData id dlen pad _ =>
+    frame_len dlen pad <= c_inflow c /\
+    (forall st, find_live id (c_streams c) = Some st -> s_state st = 1 -> s_trailer st = false ->
+                frame_len dlen pad <= s_inflow st)
+  | _ => True
+  end.
+Definition Post (c : conn) (o : op) (c' : conn) (evs : list evt) : Prop :=
+  c_bug c' = false /\
+  (c_dead c' = false ->
+   Good c' /\ c_isw c' = c_isw c /\ (within c o -> c_inflow c' = c_inflow c - debit o + wu_of evs 0)).
+
+Lemma post_dead c o c' evs : c_bug c' = false -> c_dead c' = true -> Post c o c' evs.
+Proof. intros H1 H2. split; [exact H1|]. rewrite H2. discriminate. Qed.
+
+Lemma frame_len_ge dlen pad : -1 <= pad -> dlen <= frame_len dlen pad.
+Proof. intros H. unfold frame_len. destruct (pad <? 0); lia. Qed.
+
+Lemma good_cons c st mx cur d b :
+  Good c -> st_ok (c_isw c) st -> s_buf st = 0 ->
+  Good (mkC mx (st :: c_streams c) cur (c_adv c) (c_inflow c) (c_isw c) d b (c_p3 c)).
+Proof.
+  intros [HF [H0 [Hl [He Hi]]]] Hok Hb. unfold Good; simpl. rewrite Hb.
+  split; [constructor; assumption|]. split; [exact H0|]. split; [lia|]. split; [|exact Hi].
+  intros Hp. specialize (He Hp). lia.
+Qed.
+
+Lemma step_data_post c id dlen pad es c' evs :
+  Good c -> c_bug c = false -> wf_op (OData id dlen pad es) = true ->
+  step_data c id dlen pad es = (c', evs) -> Post c (OData id dlen pad es) c' evs.
+Proof.
+  intros HG Hb Hwf. simpl in Hwf.
+  repeat (apply andb_true_iff in Hwf; destruct Hwf as [Hwf ?]).
+  assert (Hge : dlen <= frame_len dlen pad) by (apply frame_len_ge; lia).
+  unfold step_data. destruct (id =? 0) eqn:E0.
+  - intros HS. inversion HS; subst. apply post_dead; [exact Hb|reflexivity].
+  - destruct (find_live id (c_streams c)) as [st|] eqn:Ef.
+    + pose proof (find_live_some _ _ _ Ef) as [Ef' Hn3].
+      pose proof (find_some _ _ _ Ef') as [_ Hid].
+      destruct ((s_state st =? 1) && negb (s_trailer st)) eqn:Eo.
+      * apply andb_true_iff in Eo. destruct Eo as [Eo1 Eo2].
+        intros HS. rewrite <- Hid in Ef'.
+        destruct (data_open_post c st dlen (frame_len dlen pad) es c' evs HG Hb Ef') as [G [B [W [D [V _]]]]]; try lia; try assumption.
+        split; [exact B|]. intros _. split; [exact G|]. split; [exact W|].
+        intros [W1 W2]. simpl. rewrite E0. apply V; [exact W1|].
+        apply W2; [exact Ef|lia|]. destruct (s_trailer st); [discriminate|reflexivity].
+      * intros HS.
+        destruct (data_closed_post c id (frame_len dlen pad) c' evs HG Hb) as [G [B [W [D [V _]]]]]; try lia; try assumption.
+        split; [exact B|]. intros _. split; [exact G|]. split; [exact W|].
+        intros [W1 _]. simpl. rewrite E0. apply V. exact W1.
+    + intros HS.
+      destruct (data_closed_post c id (frame_len dlen pad) c' evs HG Hb) as [G [B [W [D [V _]]]]]; try lia; try assumption.
+      split; [exact B|]. intros _. split; [exact G|]. split; [exact W|].
+      intros [W1 _]. simpl. rewrite E0. apply V. exact W1.
+Qed.
+
+Lemma step_rst_post c id code c' evs :
+  Good c -> c_bug c = false -> step_rst c id = (c', evs) -> Post c (ORst id code) c' evs.
+Proof.
+  intros HG Hb. unfold step_rst. destruct (id =? 0).
+  - intros H. inversion H; subst. apply post_dead; [exact Hb|reflexivity].
+  - destruct (find_live id (c_streams c)) as [st|] eqn:Ef.
+    + pose proof (find_live_some _ _ _ Ef) as [Ef' Hn3].
+      pose proof (find_some _ _ _ Ef') as [_ Hid]. rewrite <- Hid in Ef'.
+      destruct (close_stream c st) as [cc|] eqn:Ec.
+      * destruct (close_good _ _ _ HG Ef' Ec) as [G [A [B [C [D _]]]]].
+        intros H. inversion H; subst. split; [congruence|]. intros _.
+        split; [exact G|]. split; [exact B|]. intros _. simpl. unfold wu_of; simpl. lia.
+      * unfold close_stream in Ec. destruct (s_state st =? 3) eqn:E3; [lia|discriminate].
+    + destruct (c_max c <? id).
+      * intros H. inversion H; subst. apply post_dead; [exact Hb|reflexivity].
+      * intros H. inversion H; subst. split; [exact Hb|]. intros _.
+        split; [exact HG|]. split; [reflexivity|]. intros _. simpl. unfold wu_of; simpl. lia.
+Qed.
+
+Lemma post_same c o : Good c -> c_bug c = false -> debit o = 0 -> forall evs, wu_of evs 0 = 0 -> Post c o c evs.
+Proof.
+  intros HG Hb Hd evs Hw. split; [exact Hb|]. intros _. split; [exact HG|]. split; [reflexivity|].
+  intros _. rewrite Hd, Hw. lia.
+Qed.
+
+Lemma step_closebody_post c id c' evs :
+  Good c -> c_bug c = false -> step_closebody c id = (c', evs) -> Post c (OCloseBody id) c' evs.
+Proof.
+  intros HG Hb. unfold step_closebody.
+  destruct (find_stream id (c_streams c)) as [st|] eqn:Ef.
+  - destruct (negb (s_run st)).
+    + intros H. inversion H; subst. apply post_same; auto.
+    + destruct (s_body st) eqn:Eb.
+      * intros H. inversion H; subst; clear H.
+        pose proof (find_some _ _ _ Ef) as [_ Hid]. rewrite <- Hid in Ef.
+        pose proof (Good_st _ _ _ HG Ef) as Hok.
+        split; [exact Hb|]. intros _. split.
+        { unfold upd, set_streams.
+          apply (good_set c st); [exact HG | exact Ef | exact Hok | | simpl; lia | simpl; intros; split; [assumption|lia]].
+          destruct HG as [_ [H0 _]]; exact H0. }
+        split; [reflexivity|]. intros _. simpl. unfold wu_of; simpl. lia.
+      * intros H. inversion H; subst. apply post_same; auto.
+  - intros H. inversion H; subst. apply post_same; auto.
+Qed.
+
+Lemma step_read_post c id k c' evs :
+  Good c -> c_bug c = false -> 1 <= k -> step_read c id k = (c', evs) -> Post c (ORead id k) c' evs.
+Proof.
+  intros HG Hb Hk. unfold step_read.
+  destruct (find_stream id (c_streams c)) as [st|] eqn:Ef.
+  2:{ intros H. inversion H; subst. apply post_same; auto. }
+  destruct (negb (s_run st)).
+  { intros H. inversion H; subst. apply post_same; auto. }
+  destruct (negb (s_body st)).
+  { intros H. inversion H; subst. apply post_same; auto. }
+  destruct (negb (s_rel st) && (0 <? s_buf st)) eqn:Er.
+  2:{ intros H. inversion H; subst. apply post_same; auto. }
+  apply andb_true_iff in Er. destruct Er as [_ Er].
+  pose proof (find_some _ _ _ Ef) as [_ Hid]. rewrite <- Hid in Ef.
+  pose proof (Good_st _ _ _ HG Ef) as [Hs [H1 [Hbuf [Hle [Hnb Hid0]]]]].
+  pose proof (Good_inflow_le _ HG) as Hi.
+  assert (Hisw : 0 < c_isw c <= 1000000) by (destruct HG as [_ [_ [_ [_ X]]]]; exact X).
+  set (n := Z.min k (s_buf st)). assert (Hn : 0 < n <= s_buf st) by (unfold n; lia).
+  assert (Hsum : c_inflow c + s_buf st <= init_window).
+  { destruct HG as [HF [_ [Hl _]]]. pose proof (buf_le_sum _ _ _ HF (proj1 (find_some _ _ _ Ef))). lia. }
+  rewrite send_wu_some by (unfold max_i31, init_window in *; lia).
+  destruct (s_state st =? 1) eqn:E1.
+  - destruct (H1 ltac:(lia)) as [Hbody Heq].
+    rewrite send_wu_some by (unfold max_i31 in *; lia).
+    unfold upd, set_streams, set_cinflow. simpl.
+    intros H. inversion H; subst c' evs; clear H.
+    split; [exact Hb|]. intros _. split.
+    { apply (good_set c st); [exact HG | exact Ef | | lia | simpl; lia | simpl; intros; split; [assumption|lia]].
+      unfold st_ok; simpl. split; [exact Hs|]. split; [intros; split; [assumption|lia]|].
+      repeat split; try lia. intros X. specialize (Hnb X). lia. }
+    split; [reflexivity|]. intros _. simpl.
+    rewrite wu_of_app, wu_of_wu, wu_of_app, wu_of_wu_other by lia. unfold wu_of at 1; simpl. lia.
+  - unfold upd, set_streams, set_cinflow. simpl.
+    intros H. inversion H; subst c' evs; clear H.
+    split; [exact Hb|]. intros _. split.
+    { apply (good_set c st); [exact HG | exact Ef | | lia | simpl; lia | simpl; intros; split; [assumption|lia]].
+      unfold st_ok; simpl. split; [exact Hs|]. split; [intros; lia|].
+      repeat split; try lia. intros X. specialize (Hnb X). lia. }
+    split; [reflexivity|]. intros _. simpl.
+    rewrite wu_of_app, wu_of_wu. unfold wu_of; simpl. lia.
+Qed.
+
+Lemma step_finish_post c id c' evs :
+  Good c -> c_bug c = false -> step_finish c id = (c', evs) -> Post c (OFinish id) c' evs.
+Proof.
+  intros HG Hb. unfold step_finish.
+  destruct (find_stream id (c_streams c)) as [st|] eqn:Ef.
+  2:{ intros H. inversion H; subst. apply post_same; auto. }
+  destruct (negb (s_run st)).
+  { intros H. inversion H; subst. apply post_same; auto. }
+  pose proof (find_some _ _ _ Ef) as [_ Hid]. rewrite <- Hid in Ef.
+  pose proof (Good_st _ _ _ HG Ef) as Hok.
+  assert (H0 : 0 <= c_inflow c) by (destruct HG as [_ [H0 _]]; exact H0).
+  assert (HG1 : Good (upd c (set_run st false))).
+  { unfold upd, set_streams.
+    apply (good_set c st); [exact HG | exact Ef | exact Hok | exact H0 | simpl; lia | simpl; intros; split; [assumption|lia]]. }
+  destruct (s_state st =? 3) eqn:E3.
+  - intros H. inversion H; subst c' evs; clear H. split; [exact Hb|]. intros _.
+    split; [exact HG1|]. split; [reflexivity|]. intros _. simpl. unfold wu_of; simpl. lia.
+  - destruct (close_stream (upd c (set_run st false)) (set_run st false)) as [cc|] eqn:Ec.
+    + assert (Ef1 : find_stream (s_id (set_run st false)) (c_streams (upd c (set_run st false))) = Some (set_run st false)).
+      { simpl. apply (find_upd _ _ st); [exact Ef|reflexivity]. }
+      destruct (close_good _ _ _ HG1 Ef1 Ec) as [G [A [B [C [D _]]]]].
+      intros H. inversion H; subst c' evs; clear H. split; [simpl in C; congruence|]. intros _.
+      split; [exact G|]. split; [exact B|]. intros _. simpl in A. rewrite A. simpl.
+      destruct (s_state st =? 1); unfold wu_of; simpl; lia.
+    + unfold close_stream in Ec. simpl in Ec. rewrite E3 in Ec. discriminate.
+Qed.
+
+Lemma step_headers_post c id es kind clen c' evs :
+  Good c -> c_bug c = false -> step_headers c id es kind clen = (c', evs) -> Post c (OHeaders id es kind clen) c' evs.
+Proof.
+  intros HG Hb. unfold step_headers.
+  assert (H0 : 0 <= c_inflow c) by (destruct HG as [_ [H0 _]]; exact H0).
+  assert (Hisw : 0 < c_isw c <= 1000000) by (destruct HG as [_ [_ [_ [_ X]]]]; exact X).
+  destruct (negb (id mod 2 =? 1)) eqn:Eodd.
+  { intros H. inversion H; subst. apply post_dead; [exact Hb|reflexivity]. }
+  assert (Hid0 : id <> 0).
+  { intros ->. simpl in Eodd. discriminate. }
+  destruct (find_live id (c_streams c)) as [st|] eqn:Ef.
+  - pose proof (find_live_some _ _ _ Ef) as [Ef' Hn3].
+    pose proof (find_some _ _ _ Ef') as [_ Hid]. rewrite <- Hid in Ef'.
+    pose proof (Good_st _ _ _ HG Ef') as [Hs [H1 [Hbuf [Hle [Hnb Hsid]]]]].
+    destruct (s_state st =? 2) eqn:E2.
+    { intros H. destruct (do_reset_good _ _ _ _ _ _ HG Hb H) as [G [B [I [W [D Ev]]]]].
+      split; [exact B|]. intros _. split; [exact G|]. split; [exact W|]. intros _.
+      subst evs. simpl. unfold wu_of; simpl. lia. }
+    destruct (s_trailer st).
+    { intros H. inversion H; subst. apply post_dead; [exact Hb|reflexivity]. }
+    assert (Hst1 : s_state st = 1) by lia. destruct (H1 Hst1) as [Hbody Heq].
+    assert (Hreset : forall code, do_reset (upd c (set_trailer st)) id code [] = (c', evs) -> Post c (OHeaders id es kind clen) c' evs).
+    { intros code H. unfold upd, set_streams in H. rewrite <- Hid in H.
+      apply (reset_after_upd c st (set_trailer st)) in H; side.
+      destruct H as [G [B [I [W [D Ev]]]]].
+      split; [congruence|]. intros _. split; [exact G|]. split; [exact W|]. intros _.
+      subst evs. simpl. rewrite I. unfold wu_of; simpl. lia. }
+    destruct (negb es); [apply Hreset|].
+    destruct (negb (kind =? 1)); [apply Hreset|].
+    unfold end_stream. simpl s_body. rewrite Hbody. simpl negb. cbv iota.
+    unfold upd, set_streams. simpl.
+    intros H. inversion H; subst c' evs; clear H.
+    split; [exact Hb|]. intros _. split.
+    { apply (good_set c st); [exact HG | exact Ef' | | lia | simpl; lia | simpl; intros; split; [assumption|lia]].
+      unfold st_ok; simpl. split; [right; left; reflexivity|]. split; [intros; discriminate|].
+      repeat split; try lia; try (intros X; rewrite Hbody in X; discriminate). }
+    split; [reflexivity|]. intros _. simpl. unfold wu_of; simpl. lia.
+  - destruct (id <=? c_max c).
+    { intros H. inversion H; subst. apply post_dead; [exact Hb|reflexivity]. }
+    match goal with |- context [closeconn ?x] => set (c1 := x) end.
+    destruct (c_adv c <? c_cur c1).
+    { intros H. inversion H; subst. apply post_dead; [exact Hb|reflexivity]. }
+    destruct ((kind =? 1) || (kind =? 2) && negb es).
+    + unfold do_reset, find_live, close_stream, c1.
+      destruct es; cbn; rewrite ?Z.eqb_refl; cbn; rewrite ?Z.eqb_refl; cbn;
+        (intros H; inversion H; subst c' evs; clear H;
+         split; [exact Hb|]; intros _; split;
+         [ rewrite ?orb_false_r; apply (good_cons c); [exact HG| |reflexivity];
+           unfold st_ok; simpl; split; [right; right; reflexivity|]; split; [intros; discriminate|];
+           repeat split; try lia
+         | split; [reflexivity|]; intros _; simpl; unfold wu_of; simpl; lia ]).
+    + unfold upd, set_streams, c1. simpl. rewrite Z.eqb_refl.
+      intros H. inversion H; subst c' evs; clear H.
+      split; [exact Hb|]. intros _. split.
+      { apply (good_cons c); [exact HG| |reflexivity].
+        unfold st_ok; simpl. destruct es; simpl.
+        - split; [right; left; reflexivity|]. split; [intros; discriminate|]. repeat split; try lia.
+        - split; [left; reflexivity|]. split; [intros; split; [reflexivity|lia]|]. repeat split; try lia; try (intros; discriminate). }
+      split; [reflexivity|]. intros _. simpl. unfold wu_of; simpl. lia.
+Qed.
+
+Theorem step_post c o c' evs :
+  Good c -> c_bug c = false -> wf_op o = true -> step c o = (c', evs) -> Post c o c' evs.
+Proof.
+  intros HG Hb Hwf. destruct o; simpl.
+  - apply step_headers_post; assumption.
+  - apply step_data_post; assumption.
+  - apply step_rst_post; assumption.
+  - intros H. inversion H; subst. apply post_same; auto.
+  - intros H. inversion H; subst. apply post_same; auto.
+  - apply step_read_post; try assumption. simpl in Hwf.
+    repeat (apply andb_true_iff in Hwf; destruct Hwf as [Hwf ?]). lia.
+  - apply step_closebody_post; assumption.
+  - apply step_finish_post; assumption.
+  - intros H. inversion H; subst. apply post_dead; [exact Hb|reflexivity].
+Qed.
+
+(* ---------- whole scripts ---------- *)
+Lemma init_good isw maxs : wf_cfg isw maxs = true -> Good (init_conn isw maxs).
+Proof.
+  unfold wf_cfg. intros H. repeat (apply andb_true_iff in H; destruct H as [H ?]).
+  unfold Good, init_conn; simpl. split; [constructor|].
+  unfold init_window. destruct (isw =? 0) eqn:E; repeat split; try lia.
+Qed.
+
+Lemma run_dead ops : forall c c' out, c_dead c = true -> run_ops c ops = (c', out) -> c' = c.
+Proof.
+  induction ops as [|o r IH]; simpl; intros c c' out Hd.
+  - intros H. inversion H. reflexivity.
+  - rewrite Hd. destruct (run_ops c r) as [c2 out2] eqn:E. intros H. inversion H; subst.
+    apply (IH _ _ _ Hd E).
+Qed.
+
+Lemma run_ops_inv ops : forall c c' out,
+  forallb wf_op ops = true -> c_bug c = false -> (c_dead c = false -> Good c) ->
+  run_ops c ops = (c', out) -> c_bug c' = false /\ (c_dead c' = false -> Good c').
+Proof.
+  induction ops as [|o r IH]; simpl; intros c c' out Hwf Hb HG.
+  - intros H. inversion H; subst. split; assumption.
+  - apply andb_true_iff in Hwf. destruct Hwf as [Hwo Hwr].
+    destruct (c_dead c) eqn:Ed.
+    + destruct (run_ops c r) as [c2 out2] eqn:E. intros H. inversion H; subst.
+      apply (IH _ _ _ Hwr Hb HG E).
+    + destruct (step c o) as [c1 evs] eqn:Es.
+      destruct (run_ops c1 r) as [c2 out2] eqn:E. intros H. inversion H; subst.
+      destruct (step_post _ _ _ _ (HG eq_refl) Hb Hwo Es) as [B P].
+      apply (IH _ _ _ Hwr B (fun d => proj1 (P d)) E).
+Qed.
+
+(* C35: no panic site is reachable *)
+Theorem no_bug_reachable isw maxs ops :
+  wf_cfg isw maxs = true -> forallb wf_op ops = true ->
+  c_bug (fst (run_ops (init_conn isw maxs) ops)) = false.
+Proof.
+  intros Hc Hw. destruct (run_ops (init_conn isw maxs) ops) as [c' out] eqn:E. simpl.
+  apply (run_ops_inv _ _ _ _ Hw eq_refl (fun _ => init_good _ _ Hc) E).
+Qed.
+
+(* the same through the wire functions: the model never reports a serve-loop panic *)
+Theorem run_script_no_panic i c out isw maxs ops :
+  dec_script i = Some (isw, maxs, ops) -> run_ops (init_conn isw maxs) ops = (c, out) ->
+  run_script i = enc_out c out /\ c_bug c = false.
+Proof.
+  intros Hd Hr. unfold run_script. rewrite Hd, Hr. split; [reflexivity|].
+  unfold dec_script in Hd.
+  destruct i as [| |l]; try discriminate. destruct l as [|cfg [|[| |steps] [|]]]; try discriminate.
+  destruct (as_LZ cfg) as [[|a [|b [|]]]|]; try discriminate.
+  destruct (all_some (map dec_op steps)) as [ops'|]; try discriminate.
+  destruct (wf_cfg a b && forallb wf_op ops') eqn:W; try discriminate.
+  inversion Hd; subst. apply andb_true_iff in W. destruct W as [W1 W2].
+  pose proof (no_bug_reachable _ _ _ W1 W2) as H. rewrite Hr in H. exact H.
+Qed.
+
+(* C33: reachable live states are balanced *)
+Definition reach (c : conn) : Prop :=
+  exists isw maxs ops, wf_cfg isw maxs = true /\ forallb wf_op ops = true /\
+                       c = fst (run_ops (init_conn isw maxs) ops).
+
+Lemma reach_good c : reach c -> c_dead c = false -> Good c /\ c_bug c = false.
+Proof.
+  intros [isw [maxs [ops [Hc [Hw ->]]]]] Hd.
+  destruct (run_ops (init_conn isw maxs) ops) as [c' out] eqn:E. simpl in *.
+  destruct (run_ops_inv _ _ _ _ Hw eq_refl (fun _ => init_good _ _ Hc) E) as [B G].
+  split; [apply G; exact Hd|exact B].
+Qed.
+
+Theorem conservation c :
+  reach c -> c_dead c = false ->
+  c_inflow c + sumbuf (c_streams c) <= init_window /\
+  (c_p3 c = false -> c_inflow c + sumbuf (c_streams c) = init_window) /\
+  (forall st, In st (c_streams c) -> s_state st = 1 -> s_inflow st + s_buf st = c_isw c) /\
+  (forall st, In st (c_streams c) -> 0 <= s_buf st /\ s_inflow st + s_buf st <= c_isw c).
+Proof.
+  intros Hr Hd. destruct (reach_good _ Hr Hd) as [[HF [H0 [Hl [He Hi]]]] _].
+  split; [exact Hl|]. split; [exact He|]. rewrite Forall_forall in HF. split.
+  - intros st Hin Hs. destruct (HF st Hin) as [_ [H1 _]]. apply H1. exact Hs.
+  - intros st Hin. destruct (HF st Hin) as [_ [_ [Hb [Hle _]]]]. split; assumption.
+Qed.
+
+(* without the guard the equation is false: RST_STREAM while 60 octets are unread (default window) *)
+Theorem conservation_refuted :
+  exists c, reach c /\ c_dead c = false /\ c_inflow c + sumbuf (c_streams c) < init_window.
+Proof.
+  exists (fst (run_ops (init_conn 0 0) [OHeaders 1 false 0 (-1); OData 1 60 (-1) false; ORst 1 8])).
+  split; [exists 0, 0, [OHeaders 1 false 0 (-1); OData 1 60 (-1) false; ORst 1 8]; repeat split; reflexivity|].
+  split; vm_compute; reflexivity.
+Qed.
+
+(* the client's book-keeping of the connection window along a run *)
+Fixpoint view_run (a : Z) (ops : list op) (out : list (list evt)) {struct ops} : Z :=
+  match ops, out with
+  | o :: r, e :: r' => view_run (a - debit o + wu_of e 0) r r'
+  | _, _ => a
+  end.
+Fixpoint respects (c : conn) (ops : list op) {struct ops} : Prop :=
+  match ops with
+  | [] => True
+  | o :: r => c_dead c = false -> within c o /\ respects (fst (step c o)) r
+  end.
+
+Theorem client_view_exact ops : forall c c' out,
+  Good c -> c_bug c = false -> c_dead c = false -> forallb wf_op ops = true -> respects c ops ->
+  run_ops c ops = (c', out) -> c_dead c' = false ->
+  c_inflow c' = view_run (c_inflow c) ops out.
+Proof.
+  induction ops as [|o r IH]; simpl; intros c c' out HG Hb Hd Hwf Hre.
+  - intros H _. inversion H; subst. reflexivity.
+  - apply andb_true_iff in Hwf. destruct Hwf as [Hwo Hwr]. rewrite Hd.
+    destruct (Hre Hd) as [Hw Hre'].
+    destruct (step c o) as [c1 evs] eqn:Es. simpl in Hre'.
+    destruct (run_ops c1 r) as [c2 out2] eqn:E. intros H Hd'. inversion H; subst.
+    destruct (step_post _ _ _ _ HG Hb Hwo Es) as [B P].
+    destruct (c_dead c1) eqn:Ed1.
+    + pose proof (run_dead _ _ _ _ Ed1 E). subst c'. congruence.
+    + destruct (P eq_refl) as [G [_ V]]. rewrite <- (V Hw).
+      apply (IH _ _ _ G B Ed1 Hwr Hre' E Hd').
+Qed.
+
+(* C33: a DATA frame beyond the connection window is answered with FLOW_CONTROL_ERROR on its stream;
+   beyond the stream window likewise (unless it also overruns the declared content-length) *)
+Theorem excess_conn_is_flow_error c id dlen pad es c' evs :
+  Good c -> c_bug c = false -> wf_op (OData id dlen pad es) = true -> id <> 0 ->
+  c_inflow c < frame_len dlen pad ->
+  step_data c id dlen pad es = (c', evs) -> evs = [(2, id, 3)] /\ c_inflow c' = c_inflow c.
+Proof.
+  intros HG Hb Hwf Hid Hex. simpl in Hwf.
+  repeat (apply andb_true_iff in Hwf; destruct Hwf as [Hwf ?]).
+  assert (Hge : dlen <= frame_len dlen pad) by (apply frame_len_ge; lia).
+  unfold step_data. destruct (id =? 0) eqn:E0; [lia|].
+  assert (Hc : forall c' evs, data_closed c id (frame_len dlen pad) = (c', evs) -> evs = [(2, id, 3)] /\ c_inflow c' = c_inflow c).
+  { intros c2 e2 HS. unfold data_closed in HS.
+    destruct (c_inflow c <? frame_len dlen pad) eqn:E; [|lia].
+    destruct (do_reset_good _ _ _ _ _ _ HG Hb HS) as [_ [_ [I [_ [_ Ev]]]]]. split; assumption. }
+  destruct (find_live id (c_streams c)) as [st|] eqn:Ef; [|apply Hc].
+  destruct ((s_state st =? 1) && negb (s_trailer st)) eqn:Eo; [|apply Hc].
+  apply andb_true_iff in Eo. destruct Eo as [Eo1 _].
+  pose proof (find_live_some _ _ _ Ef) as [Ef' _].
+  pose proof (find_some _ _ _ Ef') as [_ Hsid]. rewrite <- Hsid in Ef'.
+  pose proof (Good_st _ _ _ HG Ef') as [_ [H1 _]]. destruct (H1 ltac:(lia)) as [Hbody _].
+  intros HS. unfold data_open in HS. rewrite Hbody in HS. simpl in HS.
+  assert (EL : (0 <? frame_len dlen pad) = true) by (pose proof (Good_inflow_le _ HG); lia).
+  assert (EC : (c_inflow c <? frame_len dlen pad) = true) by lia.
+  assert (EA : (flow_available (s_inflow st) (c_inflow c) <? frame_len dlen pad) = true) by (unfold flow_available; lia).
+  rewrite EL, EC, EA in HS.
+  destruct (negb (s_decl st =? -1) && (s_decl st <? s_bytes st + dlen));
+    destruct (do_reset_good _ _ _ _ _ _ HG Hb HS) as [_ [_ [I [_ [_ Ev]]]]]; rewrite <- Hsid; split; assumption.
+Qed.
+
+Theorem excess_stream_is_flow_error c st dlen pad es c' evs :
+  Good c -> c_bug c = false -> wf_op (OData (s_id st) dlen pad es) = true ->
+  find_live (s_id st) (c_streams c) = Some st -> s_state st = 1 -> s_trailer st = false ->
+  (negb (s_decl st =? -1) && (s_decl st <? s_bytes st + dlen)) = false ->
+  s_inflow st < frame_len dlen pad -> 0 < frame_len dlen pad ->
+  step_data c (s_id st) dlen pad es = (c', evs) -> evs = [(2, s_id st, 3)].
+Proof.
+  intros HG Hb Hwf Ef Hs Ht Hcl Hex HL. simpl in Hwf.
+  repeat (apply andb_true_iff in Hwf; destruct Hwf as [Hwf ?]).
+  assert (Hge : dlen <= frame_len dlen pad) by (apply frame_len_ge; lia).
+  pose proof (find_live_some _ _ _ Ef) as [Ef' _].
+  pose proof (Good_st _ _ _ HG Ef') as [_ [_ [_ [_ [_ Hid0]]]]].
+  unfold step_data. destruct (s_id st =? 0) eqn:E0; [lia|]. rewrite Ef, Ht.
+  replace (s_state st =? 1) with true by lia. simpl.
+  intros HS.
+  destruct (data_open_post c st dlen (frame_len dlen pad) es c' evs HG Hb Ef') as [_ [_ [_ [_ [_ [_ V]]]]]]; try lia; try assumption.
+  apply V; assumption.
+Qed.
+
+(* ---------- C35 rules, as coded ---------- *)
+Lemma rule_even_id c id es kind clen :
+  (id mod 2 =? 1) = false -> step_headers c id es kind clen = goaway c 1.
+Proof. intros H. unfold step_headers. rewrite H. reflexivity. Qed.
+
+Lemma rule_ids_increase c id es kind clen :
+  (id mod 2 =? 1) = true -> find_live id (c_streams c) = None -> id <= c_max c ->
+  step_headers c id es kind clen = goaway c 1.
+Proof.
+  intros H Hf Hm. unfold step_headers. rewrite H, Hf. simpl.
+  destruct (id <=? c_max c) eqn:E; [reflexivity|lia].
+Qed.
+
+Lemma rule_concurrency_limit c id es kind clen c' evs :
+  (id mod 2 =? 1) = true -> find_live id (c_streams c) = None -> c_max c < id -> c_adv c <= c_cur c ->
+  step_headers c id es kind clen = (c', evs) -> c_dead c' = true /\ evs = [(5, 0, 0)] /\ c_bug c' = c_bug c.
+Proof.
+  intros H Hf Hm Ha. unfold step_headers. rewrite H, Hf. simpl.
+  destruct (id <=? c_max c) eqn:E; [lia|].
+  destruct (c_adv c <? c_cur c + 1) eqn:E2; [|lia].
+  intros HS. inversion HS; subst. repeat split; reflexivity.
+Qed.
+
+Lemma rule_headers_on_half_closed c st es kind clen c' evs :
+  Good c -> c_bug c = false -> (s_id st mod 2 =? 1) = true ->
+  find_live (s_id st) (c_streams c) = Some st -> s_state st = 2 ->
+  step_headers c (s_id st) es kind clen = (c', evs) -> evs = [(2, s_id st, 5)] /\ c_dead c' = c_dead c.
+Proof.
+  intros HG Hb H Hf Hs. unfold step_headers. rewrite H, Hf. simpl.
+  replace (s_state st =? 2) with true by lia.
+  intros HS. destruct (do_reset_good _ _ _ _ _ _ HG Hb HS) as [_ [_ [_ [_ [D Ev]]]]]. split; assumption.
+Qed.
+
+Lemma rule_data_not_open c id dlen pad es c' evs :
+  Good c -> c_bug c = false -> wf_op (OData id dlen pad es) = true -> id <> 0 ->
+  (forall st, find_live id (c_streams c) = Some st -> (s_state st =? 1) && negb (s_trailer st) = false) ->
+  step_data c id dlen pad es = (c', evs) ->
+  (In (2, id, 5) evs \/ evs = [(2, id, 3)]) /\ c_dead c' = c_dead c.
+Proof.
+  intros HG Hb Hwf Hid Hno. simpl in Hwf.
+  repeat (apply andb_true_iff in Hwf; destruct Hwf as [Hwf ?]).
+  assert (Hge : dlen <= frame_len dlen pad) by (apply frame_len_ge; lia).
+  unfold step_data. destruct (id =? 0) eqn:E0; [lia|].
+  assert (Hc : forall c' evs, data_closed c id (frame_len dlen pad) = (c', evs) ->
+               (In (2, id, 5) evs \/ evs = [(2, id, 3)]) /\ c_dead c' = c_dead c).
+  { intros c2 e2 HS. pose proof (Good_inflow_le _ HG) as Hi. unfold data_closed in HS.
+    destruct (c_inflow c <? frame_len dlen pad) eqn:E.
+    - destruct (do_reset_good _ _ _ _ _ _ HG Hb HS) as [_ [_ [_ [_ [D Ev]]]]]. split; [right; exact Ev|exact D].
+    - rewrite flow_take_conn_some in HS by lia.
+      rewrite send_wu_some in HS by (unfold max_i31, init_window in *; lia).
+      assert (HG' : Good (set_cinflow c (c_inflow c - frame_len dlen pad + frame_len dlen pad))).
+      { apply (good_ext c); try reflexivity; [simpl; lia|exact HG]. }
+      destruct (do_reset_good _ _ _ _ _ _ HG' Hb HS) as [_ [_ [_ [_ [D Ev]]]]].
+      split; [left; subst e2; apply in_or_app; right; left; reflexivity|exact D]. }
+  destruct (find_live id (c_streams c)) as [st|] eqn:Ef; [|apply Hc].
+  rewrite (Hno st eq_refl). apply Hc.
 Qed.
